@@ -170,6 +170,12 @@ def handle (cmd : String) (fs : List String) : String :=
         | .ok out => encodeStr out
         | .error e => showErr e
       else "ERR:MesonBugException"
+  | "order", nm :: nr :: metas =>
+    -- the order in which the work items (numbered as queued: modified, removed, added) are applied
+    let ws := (metas.zipIdx).filterMap (fun (m, i) => decodeWork m s!"n:0:{i}")
+    let m := tokNat nm; let r := tokNat nr
+    let sorted := sortDesc ((ws.take m) ++ ((ws.drop m).take r)) ++ ws.drop (m + r)
+    ",".intercalate (sorted.map (fun w => match w.node with | .num _ i => toString i | _ => "?"))
   | "same", [u, cf, keys, a, b] =>
     match decodeTree a, decodeTree b with
     | some x, some y => boolStr (sameExcept (decodeStrList u) (decodeStrList cf) (decodeStrList keys) x y)
